@@ -175,7 +175,7 @@ def run(c, facts, tier):
             ok, form, det = D.discharge(s)
             c.ob("C03." + form, site, inst, ok, "%s [%s, %s:%s]" % (det, cname, s["file"].split("/src/")[-1], s["line"]), witness=D.witness(s, form) if ok is not True else None, nontrivial=form not in ("ub-check", "dependency-generated", "derive-generated"))
     c.analysed["panic_capable_sites"] = total
-    c.floor("panic-capable sites in the census", total, 40)
+    c.floor("panic-capable sites in the census", total, 20)
     # ------------------------------------------------------------ progress / termination
     progress(c, facts, b, g, m_on)
     linear_time(c, facts, b, g, an)
@@ -516,8 +516,11 @@ class Discharger:
             if h is not None and find_all(h.body, lambda x: x.get("k") == "mcall" and x["m"] == "reduce"):
                 return self.nonempty_symbolic(f, recv)
         # ensure-get
-        if recv["k"] == "mcall" and recv["m"] in ("get", "as_ref", "get_mut"):
-            return self.ensure_get(f, node, recv)
+        core = recv
+        while core["k"] == "mcall" and core["m"] in ("as_ref", "as_mut", "clone", "cloned", "copied", "as_deref") and not core["args"]:
+            core = core["recv"]
+        if (core["k"] == "mcall" and core["m"] in ("get", "get_mut")) or (core["k"] == "field" and core is not recv):
+            return self.ensure_get(f, node, core)
         return None, "census", "unwrap of `%s` in %s: no discharge form applies" % (rs[:60], fn)
 
     def radix(self, f, node, recv):
@@ -606,12 +609,12 @@ class Discharger:
             return None, "ensure-get", "not a method"
         rows = codegen.table(self.f, fn, codegen.AFF())
         fld = None
-        if recv["m"] == "get":
+        optfield = recv["k"] == "field"
+        if optfield:
+            fld = recv["name"] if rx.is_var(recv["e"], "self") else None
+        else:
             base = recv["recv"]
-            fld = base["name"] if base["k"] == "field" else None
-        elif recv["m"] == "as_ref":
-            base = recv["recv"]
-            fld = base["name"] if base["k"] == "field" else None
+            fld = base["name"] if base["k"] == "field" and rx.is_var(base["e"], "self") else None
         if fld is None:
             return None, "ensure-get", "receiver `%s` not a field of self" % src(recv)
         bad = []
@@ -620,7 +623,7 @@ class Discharger:
                 bad.append("path [%s] has unmodelled constructs" % r["cond"][:50])
                 continue
             cond = r["cond"]
-            if recv["m"] == "as_ref":
+            if optfield:
                 present = ("self.%s=Some" % fld) in cond or any(e.startswith("set %s = Some(" % fld) for e in r["effects"])
             else:
                 ins = [e for e in r["effects"] if e.startswith("insert %s " % fld)]
@@ -664,10 +667,64 @@ class Discharger:
             # subtraction only after the bump on the same path: affine result non-negative (checked by C11: returned = v+1)
             rows = codegen.table(self.f, fn, codegen.AFF())
             neg = [r["cond"] for r in rows if re.search(r"v-\d", " ".join(r["effects"]) + r["outcome"])]
-            ok = not bad and not neg
-            start = 0
-            return ok, "arith", "u32 counter var_index changed only by ±1/+2 (%d sites); affine values never drop below the entry value on any path (%d paths); one allocation per AST node, bounded by the 4 KiB input bound ≪ 2³²%s" % (len(ops), len(rows), "" if ok else "; offending: %s %s" % (bad, neg))
+            wide, wdet = counter_width_ok(self.f)
+            ok = not bad and not neg and wide
+            return ok, "arith", "counter var_index changed only by ±1/+2 (%d sites); affine values never drop below the entry value on any path (%d paths); one allocation per AST node, bounded by the 4 KiB input bound; %s%s" % (len(ops), len(rows), wdet, "" if ok else "; offending: %s %s" % (bad, neg))
+        if fn == "Size::byte_size":
+            return self.byte_size_guard(f, ops)
+        # a free helper that receives the manager counter as an argument and adds a small constant to it
+        if f.impl is None and ops:
+            ptys = {n: ty for n, ty in f.params if n}
+            pidx = {n: i for i, (n, _) in enumerate(f.params)}
+            bad, used = [], set()
+            for o in ops:
+                pn = rx.var_name(o["lhs"])
+                cval = rx.int_const(o["rhs"])
+                if not (pn in ptys and ptys[pn] in WIDE_COUNTER and cval is not None and 1 <= cval <= 2 and o["op"] == "+"):
+                    bad.append(src(o))
+                else:
+                    used.add(pn)
+            sites = []
+            for f2 in self.f.nontest_fns():
+                if f2 is f or not self.refers_to(f2, f):
+                    continue
+                for cl in find_all(f2.body, lambda n: n.get("k") == "call" and n["f"]["k"] == "path" and n["f"]["segs"][-1] == f.name):
+                    in_mgr = f2.impl is not None and norm_ty(f2.impl["self_ty"]) in codegen.MANAGERS
+                    for pn in used:
+                        a = rx.peel(cl["args"][pidx[pn]]) if pidx[pn] < len(cl["args"]) else None
+                        is_ctr = a is not None and a.get("k") == "field" and rx.is_var(a["e"], "self") and a["name"] == "var_index"
+                        sites.append((f2.key, src(a) if a else None, in_mgr and is_ctr))
+            okc = bool(sites) and all(x[2] for x in sites)
+            wide, wdet = counter_width_ok(self.f)
+            if not bad and okc and wide:
+                return True, "arith", "%s adds 1/2 to its %s parameter(s) %s; every caller (%s) passes the manager counter self.var_index, which is bounded by the allocation count (one per AST node, 4 KiB input bound); %s" % (fn, "/".join(sorted({ptys[p_] for p_ in used})), sorted(used), sorted({x[0] for x in sites}), wdet)
         return False, "arith", "overflow-checked %s on run-time operands [%s] in %s: panics in debug, wraps in release" % (s["what"], s["operands"], fn)
+
+    def byte_size_guard(self, f, ops):
+        """count × unit in Size::byte_size is guarded at construction: every Size the parser builds passed the same product
+        through checked_mul in a verify."""
+        fn = f.key
+        ops = [o for o in ops if o["op"] in ("*",)]
+        pk = "<Size as Parseable>::parse"
+        pf = self.f.fns.get(pk)
+        if pf is not None and len(ops) == 1:
+            op = ops[0]
+            unit_m = rx.peel(op["rhs"])
+            unit_name = unit_m["m"] if unit_m.get("k") == "mcall" and rx.is_var(unit_m["recv"], "self") and not unit_m["args"] else None
+            fb = self.b.fn_ir(pk)
+            body = A.single_body(fb)
+            if body is None and fb["t"] == "fnbody" and not fb["steps"] and not fb["unknown"] and fb["tail"] is not None:
+                body = A.unwrap(fb["tail"])
+            why = "no verify guard around the alternatives of %s" % pk
+            if not rx.self_payload(self.f, "Size", f, op["lhs"]):
+                why = "the left operand `%s` is not the count carried by self" % src(op["lhs"])
+            elif body is not None and body["t"] == "verify" and unit_name and op["op"] == "*":
+                live = [A.unwrap(a) for a in A.flat_alts(body["p"]) if not c05.never_succeeds(self.g, a)]
+                okg, why = size_guard(body["f"], unit_name, self.f)
+                if okg and live:
+                    return True, "arith", "count × unit in Size::byte_size: every Size the parser builds (%d live alternatives) passed `count.checked_mul(size.%s()).is_some()` on the same u64 operands in a verify (dominating range guard at construction)" % (len(live), unit_name)
+            return False, "arith", "integer Mul on run-time operands in %s (`%s`): the construction-time guard is not the same product (%s): overflow panics in debug builds and wraps in release" % (fn, src(op), why)
+        return False, "arith", "integer arithmetic on run-time operands in %s: overflow panics in debug builds and wraps in release" % fn
 
     def arith_call(self, s, f):
         fn = f.key
@@ -675,27 +732,36 @@ class Discharger:
         guard = find_all(f.body, lambda n: n.get("k") == "mcall" and n["m"].startswith("checked_"))
         if not ops and guard:
             return True, "arith", "checked arithmetic"
-        # guarded at construction: every parser-built value was range-checked (Size: checked_mul in the parser's try_map)
         if fn == "Size::byte_size":
-            pk = "<Size as Parseable>::parse"
-            pf = self.f.fns.get(pk)
-            if pf is not None and len(ops) == 1:
-                # the guarded product must be the one computed here: <payload> * self.<unit fn>()
-                op = ops[0]
-                unit_m = rx.peel(op["rhs"])
-                unit_name = unit_m["m"] if unit_m.get("k") == "mcall" and rx.is_var(unit_m["recv"], "self") and not unit_m["args"] else None
-                fb = self.b.fn_ir(pk)
-                body = A.single_body(fb)
-                if body is None and fb["t"] == "fnbody" and not fb["steps"] and not fb["unknown"] and fb["tail"] is not None:
-                    body = A.unwrap(fb["tail"])
-                why = "no verify/try_map guard around the alternatives of %s" % pk
-                if body is not None and body["t"] == "verify" and unit_name and op["op"] == "*":
-                    live = [A.unwrap(a) for a in A.flat_alts(body["p"]) if not c05.never_succeeds(self.g, a)]
-                    okg, why = size_guard(body["f"], unit_name, self.f)
-                    if okg and live:
-                        return True, "arith", "count × unit in Size::byte_size: every Size the parser builds (%d live alternatives) passed `count.checked_mul(size.%s()).is_some()` on the same u64 operands in a verify (dominating range guard at construction)" % (len(live), unit_name)
-                return False, "arith", "integer Mul on run-time operands in %s (`%s`): the construction-time guard is not the same product (%s): overflow panics in debug builds and wraps in release" % (fn, src(op), why)
+            return self.byte_size_guard(f, ops)
         return False, "arith", "integer %s through an operator trait on run-time operands in %s (`%s`): overflow panics in debug builds and wraps in release" % (s["what"].split("::")[-2] if "::" in s["what"] else s["what"], fn, src(ops[0]) if ops else "?")
+
+
+WIDE_COUNTER = {"u16": 16, "u32": 32, "u64": 64, "usize": 64, "u128": 128}
+# 4 KiB of input holds at most 4096/3 primaries ("-ls" is the shortest allocating word plus a blank); each allocates at most
+# three generated names; both managers start below 8.
+MAX_NAMES = 3 * (4096 // 3) + 8
+
+
+def counter_width_ok(facts):
+    """The declared type of every manager's counter (and of the maps' index values) can hold MAX_NAMES."""
+    bad, seen = [], []
+    for M in codegen.MANAGERS:
+        sd = facts.structs.get(M)
+        if sd is None:
+            bad.append("%s not found" % M)
+            continue
+        for fl in sd.get("fields", []):
+            ty = norm_ty(fl["ty"])
+            if fl.get("name") == "var_index":
+                seen.append("%s.var_index: %s" % (M, ty))
+                if WIDE_COUNTER.get(ty, 0) < 16 or 2 ** WIDE_COUNTER.get(ty, 0) <= MAX_NAMES:
+                    bad.append("%s.var_index is %s: it overflows after %s names (an input of 4 KiB can need %d)" % (M, ty, 2 ** {"u8": 8, "i8": 7}.get(ty, 0) if ty in ("u8", "i8") else "?", MAX_NAMES))
+            elif re.search(r"HashMap<.*,(u8|i8)>$", ty):
+                bad.append("%s.%s stores indices as %s" % (M, fl.get("name"), ty))
+    if len(seen) != len(codegen.MANAGERS):
+        bad.append("counter field var_index not found in every manager (%s)" % seen)
+    return (not bad), ("counter width: %s (needs ≥ %d values)" % (", ".join(seen), MAX_NAMES)) if not bad else "; ".join(bad)
 
 
 def size_guard(f, unit_name, facts):
@@ -763,7 +829,7 @@ def progress(c, facts, b, g, mfacts):
         for a in alts:
             if not a["alts"]:
                 c.ob("C03.progress", fn.key, "alt(())", False, "empty alt tuple: winnow asserts")
-    c.floor("repetition sites", n, 10)
+    c.floor("repetition sites", n, 5)
     loops, finite = [], []
     n_for_e1 = 0
     for fn in facts.nontest_fns():
